@@ -2,6 +2,29 @@
 """Regenerate the table of section 8 of DESIGN.md from seeded/*/meta.json (strengthening notes are kept here)."""
 import glob, json, os, re
 NOTES = {
+ 'C02-G': 'caught by the check as it stood (re-based after fix F25 touched the same lines)',
+ 'C02-H': 'missed at first; a share of the environment delimiters is rendered with white space between \\begin / \\end and the name',
+ 'C03-G': 'missed at first; brackets as text (a closing one anywhere, both kinds inside a group) - all optional arguments of the renderer are written as [{..}]',
+ 'C03-H': 'missed at first (an early "detection" was a generator artefact, see section 9); commented-out skip markers added as comments',
+ 'C04-G': 'missed at first; user macro whose body is a verbatim environment added to the generating macros',
+ 'C05-H': 'missed at first; a paragraph break is now claimed across a skip region (other separations across it still carry no claim)',
+ 'C09-G': 'missed at first; optional argument given without protecting braces and containing an opening bracket',
+ 'C09-H': 'missed at first; in every second document the name of each later macro is a proper prefix of the earlier names',
+ 'C10-G': 'missed at first; runs of two maths spaces at the ends of a formula',
+ 'C10-H': 'missed at first; negative thin space between the delimiter and a maths space',
+ 'C11-G': 'missed at first; user macros whose body is a single capital letter (also letters of the error mark)',
+ 'C11-H': 'missed at first (caught by C10, whose multi-language runs put formulas into English and German parts); C11 got a metamorphic multi-language run: a foreign-language equation must not change the placeholders of the main-language text',
+ 'C12-H': 'missed at first; the placeholder of a short insertion must come from the collection of the surrounding language (oracle was: any collection)',
+ 'C13-G': 'missed at first; rules read from a file by read_replacements(), last line with and without line end',
+ 'C13-H': 'missed at first; runs with the main language left at its default, main-language part identified independently of its key',
+ 'C14-H': 'not seen by C14; caught by C16 after the line number in front of overlap-list entries was checked',
+ 'C15-H': 'missed at first; proofreader strings with backslash sequences and per-cent signs',
+ 'C16-G': 'missed at first; per-cent signs and backslashes in messages (also caught by C15 as a traceback)',
+ 'C16-H': 'missed at first; shell sample also with files that lack the final line break',
+ 'C17-H': 'missed at first; pool pairs that rewrite an included file (glossary definitions, cleveref sed file) between two calls',
+ 'C18-G': 'missed at first; \\def macro whose body calls two listed macros, used once or twice',
+ 'C18-H': 'missed at first; \\input / \\include shown inside lstlisting, tikzpicture and a skip region of the scanned files',
+ 'C19-G': 'missed at first; footnotes attached to inline and displayed formulas as text contexts',
  'C01-F': 'caught by luck of the draw at first (one seed value) and missed after later generator changes; every catalogued macro / environment is now also wrapped in the body of a three-character macro called at the end of the text, and documents are cut behind macro calls - detected at every seed value tried',
  'C05-A': 'caught by luck of the draw at first and missed after later generator changes; paragraph separators with a comment followed by a blank-but-not-empty line added - detected at every seed value tried',
  'C01-B': 'missed at first; glossary entries got a long white-space run and blanks inside generated text are now checked (also caught by C04)',
@@ -65,7 +88,7 @@ for d in sorted(glob.glob('/verif/seeded/*')):
     notes = re.sub(r'\s+', ' ', open(d + '/notes.md', encoding='utf-8').read().strip())
     short = (notes[:230].rsplit(' ', 1)[0] + ' ...').replace('|', '\\|')
     meta['strengthening'] = NOTES.get(sid, 'caught by the check as first built')
-    meta['round'] = 3 if sid[-1] in 'EF' else (2 if sid[-1] in 'CD' else 1)
+    meta['round'] = 4 if sid[-1] in 'GH' else 3 if sid[-1] in 'EF' else (2 if sid[-1] in 'CD' else 1)
     json.dump(meta, open(d + '/meta.json', 'w'), indent=1, ensure_ascii=False)
     det = ', '.join(meta['detected_by_checks']) + (', C04' if sid == 'C01-B' else '')
     rows.append('| %s | %s | %s | %s |' % (sid, det, short, meta['strengthening']))
